@@ -363,9 +363,16 @@ func monC16(c *drv.Ctx) {
 	// shorter than 128 bytes (the bulk of what a decoder sees), of 128..255 and of 1..2 KiB. A value handed out
 	// when a block was fresh must still be intact after that block has been used up and replaced several times.
 	longClasses := [][2]int{{0, 127}, {1, 16}, {128, 255}, {1024, 2047}}
-	c.Stage("kept-across-many-blocks", int64(len(longClasses))*2, true, func(cs *drv.Case) {
+	c.Stage("kept-across-many-blocks", int64(len(longClasses))*2*2, true, func(cs *drv.Case) {
 		span := cs.Idx%2 == 1
-		cl := longClasses[cs.Idx/2]
+		cl := longClasses[(cs.Idx/2)%int64(len(longClasses))]
+		if cs.Idx >= int64(len(longClasses))*2 {
+			// the same through one stream reader per 64 KiB of values
+			thrift.SetSpanCache(span)
+			defer thrift.SetSpanCache(false)
+			c16LongStream(cs, cl[0], cl[1], 2<<20, span)
+			return
+		}
 		thrift.SetSpanCache(span)
 		defer thrift.SetSpanCache(false)
 		total := c.Pick(5<<20, 24<<20)
@@ -808,4 +815,79 @@ func c16Stalled(cs *drv.Case, span bool) {
 	}
 	cs.Count(true, "stalled", span, L, cut, asString, during)
 	cs.C.Obs("values decoded while another reader was mid-value", int64(during))
+}
+
+// c16LongStream: like c16Long, the values read by thrift.BufferReader from bytes-backed readers (one per 64 KiB).
+func c16LongStream(cs *drv.Case, lo, hi, total int, span bool) {
+	r := cs.R
+	type kept struct {
+		b []byte
+		s string
+		i int
+	}
+	var ks []kept
+	verify := func(when string) bool {
+		for _, k := range ks {
+			ok := false
+			if k.b != nil {
+				ok = c16ValIs(k.b, 3, k.i, false)
+			} else {
+				ok = c16ValIs([]byte(k.s), 3, k.i, false)
+			}
+			if !ok {
+				cs.Fail("decoded-value-changed", M{"what": "value kept across many decodes of one stream reader", "when": when, "span_cache": span}, M{"value_index": k.i, "values_decoded": len(ks), "len": len(k.b) + len(k.s),
+					"message": fmt.Sprintf("value #%d of %d (lengths %d..%d) read by BufferReader is no longer what was decoded %s", k.i, len(ks), lo, hi, when)})
+				return false
+			}
+		}
+		return true
+	}
+	done, i := 0, 0
+	for done < total {
+		var stream []byte
+		var lens []int
+		for len(stream) < 64<<10 {
+			l := lo + r.Intn(hi-lo+1)
+			stream = ref.U32(stream, uint32(l))
+			stream = append(stream, make([]byte, l)...)
+			c16Val(stream[len(stream)-l:], 3, i+len(lens))
+			lens = append(lens, l)
+		}
+		br := thrift.NewBufferReader(bufiox.NewBytesReader(stream))
+		for _, l := range lens {
+			if i%2 == 0 {
+				b, err := br.ReadBinary()
+				if err != nil || len(b) != l || !c16ValIs(b, 3, i, false) {
+					cs.Fail("decode-wrong", M{"api": "BufferReader.ReadBinary", "span_cache": span}, M{"len": l, "err": errString(err), "value_index": i})
+					br.Recycle()
+					return
+				}
+				if l > 0 {
+					ks = append(ks, kept{b: b, i: i})
+				}
+			} else {
+				s, err := br.ReadString()
+				if err != nil || len(s) != l || !c16ValIs([]byte(s), 3, i, false) {
+					cs.Fail("decode-wrong", M{"api": "BufferReader.ReadString", "span_cache": span}, M{"len": l, "err": errString(err), "value_index": i})
+					br.Recycle()
+					return
+				}
+				if l > 0 {
+					ks = append(ks, kept{s: s, i: i})
+				}
+			}
+			i++
+			done += l + 1
+		}
+		br.Recycle()
+		for k := range stream {
+			stream[k] = 0xDD
+		}
+		if !verify("after a batch of further decodes") {
+			return
+		}
+	}
+	cs.Desc = M{"span_cache": span, "lengths": fmt.Sprintf("%d..%d", lo, hi), "values_kept": len(ks), "bytes": done, "through": "BufferReader"}
+	cs.Count(true, "longstream", span, lo, hi)
+	cs.C.Obs("values kept across many decodes of stream readers", int64(len(ks)))
 }
